@@ -1,7 +1,7 @@
 #!/usr/bin/env python3
 """Runs the owning quick check against the named seeded changes through tools/alt_seed.sh (isolated copies of /repo and
 /verif, nothing outside the copies is touched) and records the verdict in seeded/<name>/meta.json.
-usage: alt_sweep.py <name> ...   |   alt_sweep.py --missing   (all seeds without a 'caught' verdict)"""
+usage: alt_sweep.py <name>[:<check id>] ...   |   alt_sweep.py --missing   (all seeds without a 'caught' verdict)"""
 import json, os, re, subprocess, sys, glob, time
 
 SKIP = {"C02-m2", "C07-m2", "C16-m2", "C03-m1", "C11-m1", "C18-m2", "C05-r4m3", "C06-r4m2"}  # neutralised / superseded by fix: commits (DESIGN 9.6)
@@ -24,8 +24,10 @@ def main():
                 names.append(name)
     head = subprocess.check_output(["git", "-C", "/repo", "rev-parse", "--short", "HEAD"]).decode().strip()
     for name in names:
-        d = f"/verif/seeded/{name}"
         pid = name.split("-")[0]
+        if ":" in name:  # <seed>:<check id> runs another property's check against the seed
+            name, pid = name.split(":")
+        d = f"/verif/seeded/{name}"
         mp = d + "/meta.json"
         meta = json.load(open(mp))
         p = subprocess.run(["/verif/tools/alt_seed.sh", d + "/patch.diff", pid], stdout=subprocess.PIPE, stderr=subprocess.STDOUT, text=True)
